@@ -716,7 +716,7 @@ var Texts = []string{
 	"日本語のテキスト", "émoji 😀 ok", "é combining", " nbsp", " ls", "Ünïcödé", "ﬃ ligature", "\U0001d11e clef",
 	strings.Repeat("long text ", 25), strings.Repeat("é", 130), strings.Repeat("x", 127), strings.Repeat("y", 128), strings.Repeat("z", 300),
 	"<html>&amp;</html>", "\\backslash\\n", "---", "...", "- - -", "!!str x", "*alias", "&anchor", "%YAML 1.2", "? complex", "|", ">", "''", "\"\"",
-	" ", "\t", "a\u0000b",
+	" ", "\t", "a\u0000b", "\nleading newline", "\ttab then\nnewline", "two\n\nbreaks\n",
 }
 
 // TextSafeForChordText reports whether the string can be carried as a {} value
